@@ -84,7 +84,7 @@ func NewSolver(kind string, timeoutMs int) (*Solver, error) {
 	if kind == "cvc5" {
 		s.raw("(set-option :global-declarations true)\n(set-logic ALL)\n")
 	} else {
-		s.raw(fmt.Sprintf("(set-option :global-declarations true)\n(set-option :timeout %d)\n", timeoutMs))
+		s.raw(fmt.Sprintf("(set-option :global-declarations true)\n(set-option :timeout %d)\n(set-option :smt.relevancy 0)\n", timeoutMs))
 	}
 	return s, nil
 }
@@ -242,8 +242,8 @@ func (s *Solver) Check(extra ...*Term) SatResult {
 	}
 	dt := time.Since(t0)
 	s.Time += dt
-	if dt > 3*time.Second && os.Getenv("GOSX_SLOW") != "" {
-		fmt.Fprintf(os.Stderr, "SLOW query %.1fs result=%v\n", dt.Seconds(), lines)
+	if dt > time.Duration(slowMs)*time.Millisecond && os.Getenv("GOSX_SLOW") != "" {
+		ext := ""; if len(extra) > 0 { ext = trunc(extra[0].S, 150) }; fmt.Fprintf(os.Stderr, "SLOW query %.1fs result=%v nframes=%d extra=%s\n", dt.Seconds(), lines, s.nAsserts(), ext)
 	}
 	return s.parseCheck(lines)
 }
@@ -589,3 +589,19 @@ func parseSeqValue(v string) ([]byte, bool) {
 	}
 	return out, true
 }
+
+func (s *Solver) nAsserts() int {
+	n := 0
+	for _, f := range s.frames {
+		n += len(f)
+	}
+	return n
+}
+
+var slowMs = func() int {
+	n := 300
+	if v := os.Getenv("GOSX_SLOW"); v != "" {
+		fmt.Sscanf(v, "%d", &n)
+	}
+	return n
+}()
